@@ -54,6 +54,32 @@ func LoadProgram(repo string, patterns []string) (*Program, error) {
 		}
 		p.Funcs[fn.String()] = fn
 	}
+	// methods that are only ever called through an interface are not reachable for AllFunctions: add the method
+	// sets of every named type of the target packages
+	for _, sp := range spkgs {
+		if sp == nil {
+			continue
+		}
+		for _, mem := range sp.Members {
+			tm, ok := mem.(*ssa.Type)
+			if !ok {
+				continue
+			}
+			for _, t := range []types.Type{tm.Type(), types.NewPointer(tm.Type())} {
+				if types.IsInterface(t) {
+					continue
+				}
+				ms := prog.MethodSets.MethodSet(t)
+				for i := 0; i < ms.Len(); i++ {
+					if fn := prog.MethodValue(ms.At(i)); fn != nil && fn.Blocks != nil {
+						if _, have := p.Funcs[fn.String()]; !have && fn.Synthetic == "" {
+							p.Funcs[fn.String()] = fn
+						}
+					}
+				}
+			}
+		}
+	}
 	return p, nil
 }
 
